@@ -190,6 +190,9 @@ pub enum Ev {
     Pass { root: Slot, seed: Seed, via_clone: bool },
     GradRead { slot: Slot, via_clone: bool },
     GradClear { slot: Slot, how: ClearHow },
+    /// the user stores a gradient of their own through `gradient_mut()` (e.g. a clipped one);
+    /// `flat`: as a rank-1 array of the same element count instead of the array's own shape
+    GradSet { slot: Slot, vals: Vec<f64>, flat: bool },
     CloneTo { src: Slot, dst: Slot },
     DropSlot { slot: Slot },
     Swap { a: Slot, b: Slot },
@@ -240,6 +243,7 @@ impl Ev {
             Ev::Pass { .. } => "pass",
             Ev::GradRead { .. } => "gradread",
             Ev::GradClear { .. } => "gradclear",
+            Ev::GradSet { .. } => "gradset",
             Ev::CloneTo { .. } => "clone",
             Ev::DropSlot { .. } => "drop",
             Ev::Swap { .. } => "swap",
